@@ -127,7 +127,7 @@ def rand_op(rng, w, key):
         n = rng.choice([-3, -2, -1, 0, 1, 2, 3])
         k = rng.choice("qu")
         e1, m1 = operand(rng, w, s1, k)
-        return ({"k": key, "e": OP("**", e1, ["i", n])},
+        return ({"k": key, "e": OP("**", e1, ["i", n]), "_m": (m1, n)},
                 w.predict_pow(m1, n),
                 "(%s) ** %d" % (describe_operand(m1), n), False,
                 (k, "n"), "**")
@@ -136,7 +136,8 @@ def rand_op(rng, w, key):
     op = rng.choice("*/")
     e1, m1 = operand(rng, w, s1, kinds[0])
     e2, m2 = operand(rng, w, s2, kinds[1])
-    return ({"k": key, "e": OP(op, e1, e2)}, w.predict_mul(op, m1, m2),
+    return ({"k": key, "e": OP(op, e1, e2), "_m": (m1, m2)},
+            w.predict_mul(op, m1, m2),
             "(%s) %s (%s)" % (describe_operand(m1), op,
                               describe_operand(m2)),
             kinds == "uu", kinds, op)
@@ -208,33 +209,11 @@ def world_case(chk, rng, wi, n_ops=40):
 def rand_again(o, wfull, st):
     """re-predict an early operation in the full world (same expression)"""
     step, pred, desc, ul, kinds, op, wm, phase = o
-    e = step["e"]
-
-    def opnd(x):
-        if x[0] == "u":
-            return ("u", x[1])
-        if x[0] == "c":         # Quantity(amount, unit)
-            from ..ctl import val as _v
-            amt, u = x[2][0], x[2][1][1]
-            from fractions import Fraction as F_
-            if amt[0] == "i":
-                v = F_(amt[1])
-            elif amt[0] == "F":
-                v = F_(amt[1], amt[2])
-            else:
-                v = F_(amt[1])
-            from ..ops import stored
-            return ("q", stored(wfull, v, u), u)
-        if x[0] == "i":
-            return ("n", x[1])
-        from fractions import Fraction as F_
-        if x[0] == "F":
-            return ("n", F_(x[1], x[2]))
-        return ("n", F_(x[1]))
+    m1, m2 = step["_m"]
     if op == "**":
-        p2 = wfull.predict_pow(opnd(e[2]), e[3][1])
+        p2 = wfull.predict_pow(m1, m2)
     else:
-        p2 = wfull.predict_mul(op, opnd(e[2]), opnd(e[3]))
+        p2 = wfull.predict_mul(op, m1, m2)
     return (st, p2, desc, ul, kinds, op, wfull, "late")
 
 
